@@ -231,7 +231,11 @@ def run(ctx: Ctx) -> int:
                         ("H 0\nCX 0 1\nY 1\nT 0\nH 0\nM 0 1", "H 0\nCX 0 1\nR_Y(-1) 1\nT 0\nH 0\nM 0 1"),
                         ("U3(0.4, -1.0, 0.3) 0\nH 0\nM 0", "U3(0.4, -1, 0.3) 0\nH 0\nM 0"), ("H 0\nR_Z(1.0) 0\nH 0\nM 0", "H 0\nR_Z(1) 0\nH 0\nM 0"),
                         ("R_X(0.3) 0\nR_X(2.0) 0\nM 0", "R_X(0.3) 0\nR_X(2) 0\nM 0"), ("H 0\nM 0", "U3(0.5, 0, 1) 0\nM 0"),
-                        ("R_Y(3.0) 0 1\nCX 0 1\nM 0 1", "R_Y(3) 0 1\nCX 0 1\nM 0 1"), ("R_X(0.0) 0\nX 1\nM 0 1", "R_X(0) 0\nX 1\nM 0 1")]:
+                        ("R_Y(3.0) 0 1\nCX 0 1\nM 0 1", "R_Y(3) 0 1\nCX 0 1\nM 0 1"), ("R_X(0.0) 0\nX 1\nM 0 1", "R_X(0) 0\nX 1\nM 0 1"),
+                        # U3 with theta an even integer is a phase gate, not the identity: U3(0, phi, lambda) = R_Z(phi + lambda) up to phase
+                        ("H 0\nU3(0, 0.5, 0.5) 0\nH 0\nM 0", "H 0\nZ 0\nH 0\nM 0"), ("H 0\nU3(0.0, 0.25, 0.1) 0\nH 0\nM 0", "H 0\nR_Z(0.35) 0\nH 0\nM 0"),
+                        ("H 0\nU3(2, 0.3, 0.45) 0\nH 0\nM 0", "H 0\nR_Z(0.75) 0\nH 0\nM 0"), ("H 0 1\nCX 0 1\nU3(-2.0, 0.125, 0.125) 1\nCX 0 1\nH 0\nM 0 1", "H 0 1\nCX 0 1\nT 1\nCX 0 1\nH 0\nM 0 1"),
+                        ("H 0\nU3(4, 1, 0.5) 0\nH 0\nM 0", "H 0\nS_DAG 0\nH 0\nM 0")]:
         try:
             d1, _ = tsim_dist(tsim.Circuit(text))
             d2, _ = tsim_dist(tsim.Circuit(text2))
